@@ -14,5 +14,6 @@ func TestVerif(t *testing.T) {
 		"C08": C08{},
 		"C17": C17{},
 		"C18": C18{},
+		"C20": C20{},
 	})
 }
